@@ -330,7 +330,7 @@ theorem snd_vars (e : EAttr) : ∀ (vars : Variants) (k : Nat) (vs : List Val) (
     cases hix : e.indexOnly
     · rw [hix] at h
       simp only [Bool.false_eq_true, if_false] at h ⊢
-      obtain ⟨wd, kx, bx, body, rfl, hkx, hub, hcond⟩ := pair_inv va _ fs vs w h
+      obtain ⟨kx, bx, body, hpair, hkx, hub, hcond⟩ := pair_inv va _ fs vs w h
       have hk := snd_uint va.idx kx hkx
       have hb : Snd bx (tagI va.tag (match va.shape with
           | .unit => specEmpty (va.enc.getD (e.enc.getD .array))
@@ -347,9 +347,13 @@ theorem snd_vars (e : EAttr) : ∀ (vars : Variants) (k : Nat) (vs : List Val) (
           | some cell =>
             rw [hbc] at hcond
             exact snd_body _ fs vs hacc hv (C08.nodupNat_nodup _ hnd) hF body cell hbc hcond
-      refine ⟨?_, by simp [noChunks, noChunksAll, hk.2, hb.2]⟩
-      simp only [value, values, hk.1, hb.1]
-      rfl
+      rcases pairItems_inv w kx bx hpair with ⟨wd, rfl⟩ | rfl
+      · refine ⟨?_, by simp [noChunks, noChunksAll, hk.2, hb.2]⟩
+        simp only [value, values, hk.1, hb.1]
+        rfl
+      · refine ⟨?_, by simp [noChunks, noChunksAll, hk.2, hb.2]⟩
+        simp only [value, values, hk.1, hb.1]
+        rfl
     · rw [hix] at h
       simp only [if_true] at h ⊢
       exact snd_uint va.idx w h
